@@ -150,18 +150,18 @@ theorem init4_spec (fx : Fixes) (w : Words) (hw : w.Ok) (fail : Nat → Bool) (n
 
 /-- the retry/halving loop: whenever it ends with the four arrays allocated, they are laid out right
 behind the pointer arrays, whatever happened in the failed attempts before -/
-theorem initLoop_spec (w : Words) (hw : w.Ok) (fail : Nat → Bool) (annz : Int) :
+theorem initLoop_spec (fx : Fixes) (h3 : fx.d3 = true) (w : Words) (hw : w.Ok) (fail : Nat → Bool) (annz : Int) :
     ∀ (fuel : Nat) (nzlu nzu nzl : Int) (s : St), Mid s → 0 ≤ nzlu → 0 ≤ nzu → 0 ≤ nzl →
-      ∀ (s' : St) (a b c : Int), initLoop fixed w fail annz fuel nzlu nzu nzl s = (s', .ok a b c) →
+      ∀ (s' : St) (a b c : Int), initLoop fx w fail annz fuel nzlu nzu nzl s = (s', .ok a b c) →
         Mid s' ∧ Frame s s' ∧ Arr4 w s s' a b c ∧ 0 ≤ a ∧ 0 ≤ b ∧ 0 ≤ c := by
   intro fuel
   induction fuel with
   | zero => intro nzlu nzu nzl s _ _ _ _ s' a b c h; simp [initLoop] at h
   | succ f ih =>
-    intro nzlu nzu nzl s hm h1 h2 h3 s' a b c h
+    intro nzlu nzu nzl s hm h1 h2 h3' s' a b c h
     simp only [initLoop] at h
-    obtain ⟨m4, f4, a4⟩ := init4_spec fixed w hw fail nzlu nzu nzl s hm h1 h2 h3
-    cases hi : init4 fixed w fail nzlu nzu nzl s with
+    obtain ⟨m4, f4, a4⟩ := init4_spec fx w hw fail nzlu nzu nzl s hm h1 h2 h3'
+    cases hi : init4 fx w fail nzlu nzu nzl s with
     | mk s4 ok =>
       rw [hi] at m4 f4 a4 h
       dsimp only at m4 f4 a4
@@ -171,11 +171,11 @@ theorem initLoop_spec (w : Words) (hw : w.Ok) (fail : Nat → Bool) (annz : Int)
         injection h with hs hr
         injection hr with ha hb hc
         subst hs; subst ha; subst hb; subst hc
-        exact ⟨m4, f4, a4 rfl, h1, h2, h3⟩
+        exact ⟨m4, f4, a4 rfl, h1, h2, h3'⟩
       | false =>
         simp only [] at h
         have hu' := hm.user
-        simp only [hu', fixed, Bool.true_eq_false, if_false, if_true] at h
+        simp only [hu', h3, Bool.true_eq_false, if_false, if_true] at h
         split at h
         · simp at h
         · have hm5 : Mid { s4 with used := s.used, top1 := s.top1 } := by
@@ -431,10 +431,10 @@ theorem memInit_info_gt (fx : Fixes) (fail : Nat → Bool) (c : Cfg) (hw : c.w.O
 /-- **`LUMemInit` (repaired) establishes the invariant**: for every matrix size, fill estimate,
 workspace length `lwork > 0` and alignment, if the routine returns 0 then the state it leaves satisfies
 `Inv` — whatever happened in the retry/halving loop. -/
-theorem memInit_fixed_inv (fail : Nat → Bool) (c : Cfg) (hw : c.w.Ok) (hl : 0 < c.lwork) (hn : 1 ≤ c.n)
-    (hI : 0 ≤ isize c) (hD : 0 ≤ dsize c) (hnz : 0 ≤ c.fill * c.annz)
-    (hspin : (memInit fixed fail c).spin = false) (h : (memInit fixed fail c).info = 0) :
-    Inv c.w (memInit fixed fail c).st := by
+theorem memInit_inv_of_d3 (fx : Fixes) (h3 : fx.d3 = true) (fail : Nat → Bool) (c : Cfg) (hw : c.w.Ok) (hl : 0 < c.lwork)
+    (hn : 1 ≤ c.n) (hI : 0 ≤ isize c) (hD : 0 ≤ dsize c) (hnz : 0 ≤ c.fill * c.annz)
+    (hspin : (memInit fx fail c).spin = false) (h : (memInit fx fail c).info = 0) :
+    Inv c.w (memInit fx fail c).st := by
   have hI4 : isize c % 4 = 0 := by
     unfold isize; rw [hw.iw]; omega
   have hD4 : dsize c % 4 = 0 := by
@@ -446,7 +446,7 @@ theorem memInit_fixed_inv (fail : Nat → Bool) (c : Cfg) (hw : c.w.Ok) (hl : 0 
   have hs0 : setupSpace c = { user := true, base4 := c.base4, n := c.n, top2 := (c.lwork / 4) * 4, size := (c.lwork / 4) * 4 } := by
     unfold setupSpace; rw [if_neg (by omega)]
   unfold memInit at h hspin ⊢
-  simp only [hs0, fixed, Bool.true_eq_false, if_false, true_and] at h hspin ⊢
+  simp only [hs0, h3, Bool.true_eq_false, if_false, true_and] at h hspin ⊢
   by_cases hok : (hdrAlloc ((c.n + 1) * c.w.iw)
       { user := true, base4 := c.base4, n := c.n, top2 := (c.lwork / 4) * 4, size := (c.lwork / 4) * 4 }).hdrOk = false
   · simp only [hok, if_true] at h
@@ -461,7 +461,7 @@ theorem memInit_fixed_inv (fail : Nat → Bool) (c : Cfg) (hw : c.w.Ok) (hl : 0 
     generalize hdrAlloc ((c.n + 1) * c.w.iw)
       { user := true, base4 := c.base4, n := c.n, top2 := (c.lwork / 4) * 4, size := (c.lwork / 4) * 4 } = s1 at *
     revert h hspin
-    cases hloop : initLoop ⟨true, true, true⟩ c.w fail c.annz ((c.fill * c.annz).toNat + 2) (c.fill * c.annz)
+    cases hloop : initLoop fx c.w fail c.annz ((c.fill * c.annz).toNat + 2) (c.fill * c.annz)
         (c.fill * c.annz) (c.fill * c.annz) s1 with
     | mk s2 al =>
       intro h hspin
@@ -473,7 +473,7 @@ theorem memInit_fixed_inv (fail : Nat → Bool) (c : Cfg) (hw : c.w.Ok) (hl : 0 
         have := memoryUsage_nonneg c.w hw _ _ _ c.n hcc hb ha (by omega)
         omega
       | ok a b cc =>
-        obtain ⟨m2, f2, arr, ha, hb, hcc⟩ := initLoop_spec c.w hw fail c.annz _ _ _ _ s1 hm hnz hnz hnz _ _ _ _ hloop
+        obtain ⟨m2, f2, arr, ha, hb, hcc⟩ := initLoop_spec fx h3 c.w hw fail c.annz _ _ _ _ s1 hm hnz hnz hnz _ _ _ _ hloop
         simp only [] at h ⊢
         have hu2 : s2.user = true := m2.user
         simp only [hu2, if_true] at h ⊢
@@ -486,5 +486,11 @@ theorem memInit_fixed_inv (fail : Nat → Bool) (c : Cfg) (hw : c.w.Ok) (hl : 0 
           have hne : ¬ ((workInitUser c s2).2 = 0) := by omega
           simp [hne] at h
           omega
+
+theorem memInit_fixed_inv (fail : Nat → Bool) (c : Cfg) (hw : c.w.Ok) (hl : 0 < c.lwork) (hn : 1 ≤ c.n)
+    (hI : 0 ≤ isize c) (hD : 0 ≤ dsize c) (hnz : 0 ≤ c.fill * c.annz)
+    (hspin : (memInit fixed fail c).spin = false) (h : (memInit fixed fail c).info = 0) :
+    Inv c.w (memInit fixed fail c).st :=
+  memInit_inv_of_d3 fixed rfl fail c hw hl hn hI hD hnz hspin h
 
 end Slu.Mem
